@@ -164,6 +164,10 @@ func (c *Ctx) callBuiltin(b *ssa.Builtin, args []Value, cc *ssa.CallCommon) Valu
 		}
 		ch.closed = true
 		return nil
+	case "String", "Slice", "SliceData", "StringData":
+		if v, ok := c.unsafeBuiltin(b.Name(), args); ok {
+			return v
+		}
 	case "ssa:wrapnilchk":
 		if p, ok := args[0].(PtrV); ok && p.obj == nil {
 			c.goPanic("value method called using nil pointer", nil)
